@@ -23,7 +23,7 @@ CORR_HEADER = ("From Coq Require Import ZArith QArith List.\n"
                "From ACN Require Import Base.Num Model.Ledger Model.LedgerQ Model.Analysis Model.AnalysisQ Model.AnalysisQc.\n"
                "Import ListNotations.\nOpen Scope Q_scope.\n")
 CHECK_FN = "check_c18_qc"      # the canonical-rational instance: the model of the axiom-free theorems
-RULE = ("one simulation of the real Simulator yields up to three cases: every analysis function is called from inside the scheduling algorithm at every invocation while the run is in progress (two of these mid-run snapshots are kept) and again on the completed simulation, each compared with the model for the state at that moment (C02 generator: 1-6 stations, voltages 120/208/240/277, mixed battery "
+RULE = ("(a fifth of the simulations on contrib StochasticNetwork with never-connected sessions; half with a simulator tariff / explicit tariff for energy_cost and demand_charge; 30% with an exactly cancelling charge/discharge station and direct constraint_current queries on period subsets) one simulation of the real Simulator yields up to three cases: every analysis function is called from inside the scheduling algorithm at every invocation while the run is in progress (two of these mid-run snapshots are kept) and again on the completed simulation, each compared with the model for the state at that moment (C02 generator: 1-6 stations, voltages 120/208/240/277, mixed battery "
         "classes, period 1/5/15/0.5/7.5 minutes and fractional-second / float-inexact periods 4.1, 0.1, 1/3, 2.3, 12.5/60, 0.025, 8.2, ...) on a network with 1-5 constraints built from Current objects (three-phase groups on "
         "phases 30/-90/150 and arbitrary angles, signed / fractional / scaled coefficients), then every analysis function: "
         "aggregate_current/power, constraint_currents with both flag values and None / random subsets / permutations / "
@@ -63,11 +63,16 @@ def rand_constraints(rng, stations):
 
 
 def gen_input(rng, tier):
-    inp = c02.gen_history(rng, tier, force="valid")
+    # a fifth of the simulations run on the contrib StochasticNetwork (saturated: sessions that arrive while every EVSE is
+    # occupied wait in the queue; some leave without ever being connected and stay in ev_history with station_id None)
+    stoch = rng.random() < 0.2
+    inp = c02.gen_history(rng, tier, force="stochastic" if stoch else "valid")
+    for k_ in ("interrupts", "probe", "dtypes", "decoy_at", "rereg"):
+        inp.pop(k_, None)
     for st in inp["stations"]:
         st["phase"] = rng.choice([30, -90, 150, 30, -90, 150, 0, 17.5, 180, -33.25])
     cancel = None
-    if rng.random() < 0.3:
+    if not stoch and rng.random() < 0.3:
         # EXACT cancellation: one bidirectional station hosts a single session (ideal battery far from its limits, so
         # actual = pilot) that is charged and discharged symmetrically (+p, -p, +p, -p ... on dyadic p): the recorded
         # rates of that station are non-zero but sum to exactly 0 over the run
@@ -143,6 +148,16 @@ def gen_input(rng, tier):
     inp["nema_queries"] = nema
     inp["thresholds"] = [0.1, 0.0, rng.choice([1e-3, 0.5, 2.0]), round(rng.uniform(0, 20), 3), -1.0]
     inp["snap_pick"] = rng.random()
+    # cost functions: the simulator is built with its own tariff / an empty signals dict / no signals; energy_cost and
+    # demand_charge are asked without and with an explicit (different) tariff; the run starts shortly before a
+    # time-of-use boundary so that the price series varies
+    TARIFFS = ["sce_tou_ev_4_march_2019", "pge_a10_tou_aug_2019", "sce_tou_ev_8_june_2019", "sce_tou_ev_8_oct_2018"]
+    if rng.random() < 0.5:
+        own = rng.choice([None, "", TARIFFS[0], TARIFFS[1], TARIFFS[2]])
+        if own is not None:
+            inp["sim_tariff"] = own
+        inp["cost_queries"] = [None, rng.choice([t for t in TARIFFS if t != own])]
+        inp["start_hm"] = rng.choice([[0, 0], [15, 50], [7, 55], [20, 58], [11, 45]])
     # the direct network entry point ChargingNetwork.constraint_current(rates, constraints, time_indices) on a subset of
     # the periods (for the cancellation family: the pairs of periods whose rates cancel)
     if cancel is not None:
@@ -154,7 +169,7 @@ def gen_input(rng, tier):
             inp["cc_queries"].append([False, [j]])
     else:
         inp["direct_ti"] = [sorted(rng.sample(range(8), rng.randint(1, 3))), [rng.randrange(6)]]
-    if rng.random() < 0.3:
+    if not stoch and rng.random() < 0.3:
         # the finished run is passed through to_json()/from_json(); the analysis functions are applied to the reloaded object
         inp["json"] = "final"
     return inp
@@ -351,6 +366,30 @@ def analyse(inp):
         dts = an.datetimes_array(sim)
         start = np.datetime64(sim.start.replace(tzinfo=None))
         out["minutes_us"] = [int((d - start).astype("timedelta64[us]").astype("int64")) for d in dts]
+        # ---- energy_cost / demand_charge: simulator tariff present / absent  x  explicit tariff argument present / absent
+        costs = []
+        if inp.get("cost_queries"):
+            from acnportal.signals.tariffs import TimeOfUseTariff
+            own = sim.signals.get("tariff") if isinstance(sim.signals, dict) else None
+            for qn, arg_name in enumerate(inp["cost_queries"]):
+                explicit = TimeOfUseTariff(arg_name) if arg_name else None
+                applicable = explicit if explicit is not None else own
+                ent = dict(explicit=arg_name, own=None if own is None else own.name)
+                for fname in ("energy_cost", "demand_charge"):
+                    f = getattr(an, fname)
+                    try:
+                        if explicit is None:
+                            v = f(sim) if (qn + state["calls"]) % 2 else f(sim, None)
+                        else:
+                            v = f(sim, explicit) if (qn + state["calls"]) % 2 else f(sim, tariff=explicit)
+                        ent[fname] = float(v)
+                    except Exception as e:  # noqa
+                        ent[fname] = "raise:" + type(e).__name__
+                if applicable is not None:
+                    ent["prices"] = [float(x) for x in applicable.get_tariffs(sim.start, int(sim.charging_rates.shape[1]), sim.period)]
+                    ent["dc"] = float(applicable.get_demand_charge(sim.start))
+                costs.append(ent)
+        out["costs"] = costs
         direct = []
         if net.constraint_matrix is not None:
             W_ = int(sim.charging_rates.shape[1])
@@ -406,7 +445,7 @@ def run_impl(inp):
 
 
 FAILING_CASE = ("{| c_traj := mk_traj 0%nat [] [] [] [] [] [] 0%nat 1 true; i_agg_current := [1]; i_agg_power := []; i_cc := [];\n"
-                "   i_requested := 0; i_delivered := 0; i_proportion := None; i_met := []; i_nema := []; i_minutes := [] |}")
+                "   i_requested := 0; i_delivered := 0; i_proportion := None; i_met := []; i_nema := []; i_minutes := []; i_costs := [] |}")
 
 
 # ------------------------------------------------------------------------------------------------
@@ -443,10 +482,13 @@ def case_coq(inp, ex):
                                    "(Some %s)" % coq_list([coq_opt(x, q) for x in r]))
                      for ids, r in zip(inp["nema_queries"], ex["nema"])])
     minutes = coq_list([q(F(us, 60 * 10**6)) for us in ex["minutes_us"]])
+    costs = coq_list(["(%s, %s, %s, %s)" % (coq_list([q(x) for x in e["prices"]]), q(e["dc"]), q(e["energy_cost"]), q(e["demand_charge"]))
+                      for e in ex.get("costs", [])
+                      if "prices" in e and not isinstance(e["energy_cost"], str) and not isinstance(e["demand_charge"], str)])
     return ("{| c_traj := %s;\n   i_agg_current := %s; i_agg_power := %s;\n   i_cc := %s;\n"
-            "   i_requested := %s; i_delivered := %s; i_proportion := %s; i_met := %s;\n   i_nema := %s; i_minutes := %s |}") % (
+            "   i_requested := %s; i_delivered := %s; i_proportion := %s; i_met := %s;\n   i_nema := %s; i_minutes := %s; i_costs := %s |}") % (
         traj, coq_list([q(x) for x in ex["agg_current"]]), coq_list([q(x) for x in ex["agg_power"]]), cc,
-        q(ex["requested"]), q(ex["delivered"]), coq_opt(ex["proportion"], q), met, nema, minutes)
+        q(ex["requested"]), q(ex["delivered"]), coq_opt(ex["proportion"], q), met, nema, minutes, costs)
 
 
 def finish_case(inp, ex, snapshot):
@@ -564,6 +606,23 @@ def monitor(case):
                 if not (close(res_re[j][col], re) and close(res_im[j][col], im)):
                     return ("network.constraint_current(rates, time_indices=%r) row %d, period %d = %r, phase-aware sum = %r"
                             % (ti, j, t, complex(res_re[j][col], res_im[j][col]), complex(re, im)))
+    for ent in ex.get("costs", []):
+        if "prices" not in ent:
+            # neither the caller nor the simulator names a tariff: both functions must refuse
+            for fname in ("energy_cost", "demand_charge"):
+                if not isinstance(ent[fname], str):
+                    return "%s returned %r although no tariff is specified" % (fname, ent[fname])
+            continue
+        fp = [float(sum(F(rates[s][t]) * F(volts[s]) for s in range(n)) / 1000) for t in range(W)]
+        which = ("the explicit tariff argument %r" % ent["explicit"]) if ent["explicit"] else ("the simulator's tariff %r" % ent["own"])
+        want_e = sum(p * a for p, a in zip(ent["prices"], fp)) * (inp["period"] / 60)
+        want_d = ent["dc"] * max(fp)
+        if isinstance(ent["energy_cost"], str) or not close(ent["energy_cost"], want_e):
+            return "energy_cost = %r, but sum_t price_t * aggregate power_t * period/60 with %s is %r (simulator tariff %r)" % (
+                ent["energy_cost"], which, want_e, ent["own"])
+        if isinstance(ent["demand_charge"], str) or not close(ent["demand_charge"], want_d):
+            return "demand_charge = %r, but rate * max aggregate power with %s is %r (simulator tariff %r)" % (
+                ent["demand_charge"], which, want_d, ent["own"])
     for (flag, ids), items in zip(inp["cc_queries"], ex["cc"]):
         if isinstance(items, str):
             if ex["cmat_present"]:
